@@ -323,11 +323,12 @@ func c01Enqueue(r *core.Run, a *svcAnchors, e *lockEngine) {
 
 	// state bits: b0 lookedUp, b1 registered, grouped: b2 yes, b3 no
 	const (
-		bLooked = 1
-		bReg    = 2
-		bGYes   = 4
-		bGNo    = 8
-		bEver   = 16 // the lookup was executed at some point on this path
+		bLooked   = 1
+		bReg      = 2
+		bGYes     = 4
+		bGNo      = 8
+		bEver     = 16 // the lookup was executed at some point on this path
+		bNotFound = 32 // the path took the not-found edge of the lookup's presence result
 	)
 	isGroupCmp := func(iff *ssa.If) (bool, bool) { // (isCmp, trueMeansNonEmpty)
 		ci := core.Cond(iff.Cond)
@@ -352,7 +353,7 @@ func c01Enqueue(r *core.Run, a *svcAnchors, e *lockEngine) {
 			}
 		case *ssa.Lookup:
 			if x == lookup {
-				return core.StateSet(0).Add((s | bLooked | bEver) &^ bReg)
+				return core.StateSet(0).Add((s | bLooked | bEver) &^ bReg &^ bNotFound)
 			}
 		case *ssa.MapUpdate:
 			if f, ok := core.LoadedField(x.Map); ok && f == a.RWork && core.Strip(x.Key) == ssa.Value(gparam) {
@@ -360,6 +361,27 @@ func c01Enqueue(r *core.Run, a *svcAnchors, e *lockEngine) {
 			}
 		}
 		return core.StateSet(0).Add(s)
+	}
+	var okVal func(v ssa.Value, d int) bool
+	okVal = func(v ssa.Value, d int) bool {
+		if d > 6 {
+			return false
+		}
+		switch x := v.(type) {
+		case *ssa.Extract:
+			return x.Tuple == ssa.Value(lookup) && x.Index == 1
+		case *ssa.Phi:
+			for _, ed := range x.Edges {
+				if okVal(ed, d+1) {
+					return true
+				}
+			}
+		case *ssa.UnOp:
+			if x.Op == token.NOT {
+				return okVal(x.X, d+1)
+			}
+		}
+		return false
 	}
 	fl.Branch = func(iff *ssa.If, succ int, s int) (int, bool) {
 		if is, neOnTrue := isGroupCmp(iff); is {
@@ -379,6 +401,24 @@ func c01Enqueue(r *core.Run, a *svcAnchors, e *lockEngine) {
 		// (its other phi inputs are the constant false)
 		if okPhiOnlyFromLookup(iff.Cond, lookup) && succ == 0 && s&bEver == 0 {
 			return s, false
+		}
+		// the presence result of the lookup (or the flag that carries it): remember the not-found edge
+		{
+			c, neg := iff.Cond, false
+			for {
+				u, ok := c.(*ssa.UnOp)
+				if !ok || u.Op != token.NOT {
+					break
+				}
+				c, neg = u.X, !neg
+			}
+			if okVal(c, 0) {
+				present := (succ == 0) != neg
+				if present {
+					return s &^ bNotFound, true
+				}
+				return s | bNotFound, true
+			}
 		}
 		return s, true
 	}
@@ -418,27 +458,6 @@ func c01Enqueue(r *core.Run, a *svcAnchors, e *lockEngine) {
 				if fromLookup(ed, d+1) {
 					return true
 				}
-			}
-		}
-		return false
-	}
-	var okVal func(v ssa.Value, d int) bool
-	okVal = func(v ssa.Value, d int) bool {
-		if d > 6 {
-			return false
-		}
-		switch x := v.(type) {
-		case *ssa.Extract:
-			return x.Tuple == ssa.Value(lookup) && x.Index == 1
-		case *ssa.Phi:
-			for _, ed := range x.Edges {
-				if okVal(ed, d+1) {
-					return true
-				}
-			}
-		case *ssa.UnOp:
-			if x.Op == token.NOT {
-				return okVal(x.X, d+1)
 			}
 		}
 		return false
@@ -505,15 +524,22 @@ func c01Enqueue(r *core.Run, a *svcAnchors, e *lockEngine) {
 				nPush++
 				s := res.Before[st]
 				good := !s.Empty()
+				notFoundPath := true
 				for _, x := range s.List() {
 					switch {
 					case x&bGNo != 0: // parallel: no registration required
 					case x&bLooked != 0 && x&bReg != 0:
+						if x&bNotFound == 0 {
+							notFoundPath = false
+						}
 					default:
 						good = false
 					}
 				}
+				// on the not-found edge: by dominance, or - when the lookup is nested under the group
+				// test and the push follows the merge - on every grouped path (typestate)
 				found, onTrue := okEdge(st)
+				found, onTrue = found || notFoundPath, onTrue && !notFoundPath
 				r.Check(good && found && !onTrue, "A2", fname, "register-before-push", p.InstrPos(st),
 					"new item pushed on the not-found edge; for a non-empty group id it was registered after the lookup in the same critical section",
 					fmt.Sprintf("a new work item can be pushed for a group without being registered in the lookup's critical section (state=%s, onNotFoundEdge=%v): two workers could run the same group", stDesc(s), found && !onTrue))
@@ -1226,6 +1252,11 @@ func classifyGroupArg(arg ssa.Value, c ssa.CallInstruction, a *svcAnchors, match
 	if f, ok := core.LoadedField(arg); ok && f == matchGroup {
 		return "Match.Group", true
 	}
+	// the group stored in the resource at its construction (what Group() returns; F2 checks that the
+	// field is only written from Match.Group)
+	if f, ok := core.LoadedField(arg); ok && f.Struct == "resource" && f.Name == resourceGroupField(arg) {
+		return "resource.group", true
+	}
 	// (match, group) computed by a private helper: on its matched returns Match.Group, on the
 	// others the name it looked up
 	if ex, ok := arg.(*ssa.Extract); ok {
@@ -1296,12 +1327,8 @@ func c01Restart(r *core.Run, rule string, a *svcAnchors, root []*ssa.Function) {
 		}
 	}
 	var wait ssa.Instruction
-	for _, c := range core.Calls(shutdown) {
-		if cal := c.Common().StaticCallee(); cal != nil && cal.String() == "(*sync.WaitGroup).Wait" && !core.IsGo(c) && !core.IsDefer(c) {
-			if f, ok := core.FieldOf(c.Common().Args[0]); ok && f == a.WG {
-				wait = c
-			}
-		}
+	if ws := workerWaitSites(p, shutdown, a); len(ws) > 0 {
+		wait = ws[len(ws)-1]
 	}
 	r.Check(wait != nil && storeStopped != nil && core.Dominates(wait, storeStopped), rule, core.FuncName(shutdown), "stopped-only-after-all-workers-exited", posOf(p, storeStopped),
 		"Store(stopped) is dominated by a plain WaitGroup.Wait on the worker group", "the service can be declared stopped (and served again) while a worker of this run is still inside a callback: after the restart the same group can run on two workers at once")
@@ -1666,4 +1693,40 @@ func holdsValue(a, v ssa.Value) bool {
 		}
 	}
 	return n > 0
+}
+
+// resourceGroupField: the name of the resource member that the accessor
+// Group() returns (resolved from the accessor, not assumed).
+func resourceGroupField(v ssa.Value) string {
+	in, ok := v.(ssa.Instruction)
+	if !ok || in.Parent() == nil || in.Parent().Pkg == nil {
+		return ""
+	}
+	pkg := in.Parent().Pkg
+	for _, m := range pkg.Members {
+		_ = m
+	}
+	prog := pkg.Prog
+	tn, ok := pkg.Members["resource"].(*ssa.Type)
+	if !ok {
+		return ""
+	}
+	for _, recv := range []types.Type{tn.Type(), types.NewPointer(tn.Type())} {
+		ms := prog.MethodSets.MethodSet(recv)
+		for i := 0; i < ms.Len(); i++ {
+			if ms.At(i).Obj().Name() != "Group" {
+				continue
+			}
+			fn := prog.MethodValue(ms.At(i))
+			if fn == nil {
+				continue
+			}
+			for _, ret := range core.Returns(fn) {
+				if f, ok := core.LoadedField(ret.Results[0]); ok && f.Struct == "resource" {
+					return f.Name
+				}
+			}
+		}
+	}
+	return ""
 }
